@@ -8,7 +8,7 @@ mkdir -p bin && go1.26.8 build -o bin/ ./cmd/simgen ./cmd/verifctl || exit 2
 seeds=${@:-101}
 rc=0
 for s in $seeds; do
-  for id in $(jq -r '.checks[].property' MANIFEST.json); do
+  for id in $(jq -r '.checks[].property_id' MANIFEST.json); do
     t0=$(date +%s)
     VERIF_SEED=$s bin/verifctl check $id --tier thorough > out_$id.txt 2>&1
     e=$?
